@@ -342,6 +342,11 @@ func zzClientDo(_ *http.Client, req *http.Request) (*http.Response, error) {
 	if s.budget > 0 && vBool("transportError") {
 		s.budget--
 		s.doErrors++
+		if vBool("itIsANetworkTimeout") {
+			// (net's dial/IO timeouts and http.Client.Timeout report Is(context.DeadlineExceeded) although no context of
+			// the caller has ended: still a transient failure, retried within the budget)
+			return nil, fmt.Errorf("dial tcp 10.0.0.1:443: i/o timeout: %w", context.DeadlineExceeded)
+		}
 		return nil, errors.New("dial tcp: connection refused")
 	}
 	if s.refused > 0 {
